@@ -31,6 +31,67 @@ CHECKS = {
              "Outside: Expr/LogicalPlan/PhysicalExpr per-variant child enumeration, larger trees.",
         design="5/C42",
     ),
+    "C17": dict(
+        engine="K (Kani / CBMC)",
+        category="model_checking",
+        technique="bounded model checking with Kani 0.68 / CBMC 6.11 (SAT) of the memory-pool source extracted verbatim from /repo on every run; one inductive step from an arbitrary API-reachable pre-state; failing harnesses replayed natively (dev + release)",
+        text="For each pool kind (greedy, fair-spill, peak-recording over each) and each reservation operation (try_grow, grow, shrink, try_shrink, resize, try_resize, free, split, take, new_empty, drop) CBMC decides, for ALL limits, "
+             "reservation sizes, arguments (<= 2^40) and can_spill flags, that reserved() equals the sum of the live reservations before and after, that a failed fallible operation changes nothing, that a granted try_grow stays within the "
+             "limit / the fair share, that peak >= current and peak-since-reset is the maximum, and that dropping every reservation returns the pool to zero. The pre-state is arbitrary, so the step is the inductive step for histories of any length.",
+        note="SEQUENTIAL half of the property only: thread interleavings are outside (Kani executes atomics sequentially). Outside too: TrackConsumersPool (hashbrown map), SharedRegistration::drop/unregister (Kani mis-models that drop glue, see evidence `cuts`), "
+             "sizes above 2^40. Shims: parking_lot::Mutex, fmt::format, human_readable_size, log::debug!, DataFusionError. Quick tier runs the harnesses calibrated <= 260 s (k/c17_calibration.json), thorough all 44.",
+        design="8.5/C17",
+    ),
+    "C21": dict(
+        engine="K (Kani / CBMC)",
+        category="model_checking",
+        technique="bounded model checking with Kani 0.68 / CBMC 6.11 (SAT) of `impl Write for FileSpillWriter` and `impl Drop for RefCountedTempFile` extracted verbatim from /repo on every run; the file handle is a shim whose write_all fails iff a solver-chosen flag is set; counterexamples replayed natively (dev + release)",
+        text="Disk-usage accounting half of the property: for ALL write lengths (0..=16), ALL u64 limits, ALL injected write_all failures, (a) one write from an arbitrary consistent pre-state and (b) a history of three writes on two files, a cloned handle and the drops: "
+             "used_disk_space always equals the sum of the per-file usage, a failed or rejected write changes nothing, an admitted write stays within the limit, and usage returns to zero when the last handle of every file is dropped.",
+        note="Outside: the IPC encode/decode round trip of spill files (arrow-ipc, codecs, real I/O), concurrent writers, limit changes between the add and the check. This check found the leak repaired by fix: a6cfae9.",
+        design="8.5/C21",
+    ),
+    "C03": dict(
+        engine="T (translation validation, SMT)",
+        category="translation_validation",
+        technique="plan-level translation validation: real analyzer + optimizer run on each SQL program; both plans encoded as bounded symbolic relations (QF_BV); z3 decides multiset equality on every database within the bound; models executed in the real engine",
+        text="For every SQL program the analyzed plan and the plan produced by the REAL optimizer (full pipeline, each rule alone, pipeline minus one rule) are proved to return the same multiset of rows, with the same output schema, "
+             "on EVERY database with at most N rows per table (all cell values and NULL flags symbolic). A sat model becomes concrete MemTables and both plans are executed by the real engine (without logical optimization) before it is reported.",
+        note="Bound: N = 2 (quick) / 3 (thorough) rows per table, Int32 columns, the SQL grammar of t/src/c03.rs. Trusted: the relational semantics of t/src/plan.rs (every model is replayed), z3. Outside: window/unnest/recursive/GROUPING SETS/subquery expressions, order-dependent LIMIT, larger tables.",
+        design="5/C03",
+    ),
+    "C38": dict(
+        engine="T (translation validation, SMT)",
+        category="translation_validation",
+        technique="plan-level translation validation of plan_to_sql: plan vs re-planned generated SQL, bounded symbolic relations, z3, replay in the real engine",
+        text="For every program, the analyzed plan and the optimized plan are unparsed by the REAL plan_to_sql, the text is re-planned by the real planner, and plan and re-planned plan are proved to return the same rows on every database within the bound.",
+        note="Same bound and trusted base as C03. Eight classes of unparser defects on optimized plans are recorded in known_findings.json (keyed by the trigger in the unparsed plan).",
+        design="5/C38",
+    ),
+    "C41": dict(
+        engine="T (translation validation, SMT)",
+        category="translation_validation",
+        technique="plan-level translation validation of parameter binding: with_param_values / PREPARE+EXECUTE plan vs literal plan, bounded symbolic relations, z3, replay in the real engine",
+        text="For each statement template and parameter vector the plan with the REAL parameter binding (LogicalPlan::with_param_values, and PREPARE/EXECUTE through SessionContext) is proved to return the same rows as the statement with the values written as literals, on every database within the bound.",
+        note="Same bound and trusted base as C03; 13 templates, BIGINT parameters from the boundary set incl. NULL.",
+        design="5/C41",
+    ),
+    "C48": dict(
+        engine="T (translation validation, SMT)",
+        category="translation_validation",
+        technique="plan-level translation validation of the DataFrame builder: DataFrame plan vs SQL plan (and both optimized), bounded symbolic relations, z3, replay in the real engine",
+        text="For each DataFrame operation chain the plan built by the REAL DataFrame methods is proved to return the same rows as the plan of the SQL statement with the same meaning, before and after optimization, on every database within the bound.",
+        note="Same bound and trusted base as C03; 32 hand-paired chains covering 19 builder methods.",
+        design="5/C48",
+    ),
+    "C37": dict(
+        engine="T (translation validation, SMT)",
+        category="translation_validation",
+        technique="plan-level translation validation of the Substrait round trip: optimized plan vs from_substrait_plan(to_substrait_plan(plan)), bounded symbolic relations, z3, replay in the real engine",
+        text="For every program the optimized plan and its REAL Substrait round trip are proved to return the same rows with the same output types on every database within the bound.",
+        note="Same bound and trusted base as C03.",
+        design="5/C37",
+    ),
     "C04": dict(
         engine="T (translation validation, SMT)",
         category="translation_validation",
@@ -50,6 +111,15 @@ CHECKS = {
              "whenever it evaluates without error, (c) IN lists equal the OR of equalities - for ALL operand values.",
         note="Bounds: 13 (quick) / 19 (thorough) types x 8 operators, literal operands from type boundaries. Outside: floats, strings, dictionaries, equi-joins, Date64<->Timestamp casts (unsupported by the encoder, counted).",
         design="5/C47",
+    ),
+    "C44": dict(
+        engine="T (translation validation, SMT)",
+        category="translation_validation",
+        technique="translation validation of the schema adapter's expression rewrite: specification (casts of same-named file columns, NULL for missing ones) vs the REAL DefaultPhysicalExprAdapter output, QF_BV SMT over a symbolic file row, models replayed with the real evaluator and the arrow cast kernel",
+        text="For every file-schema variant and every expression over the table schema, the REAL adapter's rewritten expression is proved to yield, on EVERY file row, the value the table-schema expression has on the adapted row "
+             "(same-named column cast to the table type, NULL for missing columns), whenever the adapted row exists (casts do not overflow); bare column references cover the projection itself, predicates cover filter rewriting.",
+        note="Expression half of the property only. Outside: nested struct field evolution, the record-batch plumbing (schema_adapter.rs, Parquet reader coercions), non-integer column types.",
+        design="8.5/C44",
     ),
     "C22": dict(
         engine="T (translation validation, SMT)",
@@ -112,17 +182,9 @@ NOT_APPLICABLE = {
 
 # planned in DESIGN.md but the check is not built (yet): listed as not applicable until it exists and passes
 PENDING = {
-    "C03": "planned (DESIGN 5/C03, engine T plan level): check not built yet",
     "C14": "planned (DESIGN 5/C14, engine K one-step harness): check not built yet",
-    "C17": "planned (DESIGN 5/C17, engine K one-step harness): check not built yet",
-    "C21": "planned (DESIGN 5/C21, engine K item extraction): check not built yet",
     "C28": "planned (DESIGN 5/C28, engine T): check not built yet",
-    "C37": "planned (DESIGN 5/C37, engine T plan level): check not built yet",
-    "C38": "planned (DESIGN 5/C38, engine T plan level): check not built yet",
     "C40": "planned (DESIGN 5/C40, engine K file mount): check not built yet",
-    "C41": "planned (DESIGN 5/C41, engine T plan level): check not built yet",
-    "C44": "planned (DESIGN 5/C44, engine T): check not built yet",
-    "C48": "planned (DESIGN 5/C48, engine T plan level): check not built yet",
 }
 
 ENGINES = [
